@@ -456,7 +456,7 @@ pub fn line_oracle(td: &TableDefinition, line: &str) -> LineOracle {
     LineOracle { res, json }
 }
 
-fn json_sexp(v: &serde_json::Value, out: &mut String) {
+pub fn json_sexp(v: &serde_json::Value, out: &mut String) {
     match v {
         serde_json::Value::Null => out.push_str("null"),
         serde_json::Value::Bool(b) => out.push_str(&format!("(b {})", flag(*b))),
@@ -511,9 +511,13 @@ pub fn case_line(td: &TableDefinition, line: &str, lo: &LineOracle) -> String {
     }
     s.push_str(") ");
     let any_json = td.columns.iter().any(|c| matches!(c.parsing, ColumnParsing::Json(_)));
-    match (&lo.json, any_json) {
-        (Some(j), true) => { s.push_str("(json "); json_sexp(j, &mut s); s.push(')'); }
-        _ => s.push_str("nojson"),
+    // the document serde_json makes of the line: shipped for every second case (`(json J)` / `notjson`, cross-checked by
+    // the driver against `JsonDoc.docOfLine`), computed by the model for the others (`compute`); `nojson` = no JSON column
+    match (&lo.json, any_json, crate::util::ship_facts(crate::util::SITE_EXTRACT_DOC)) {
+        (_, false, _) => s.push_str("nojson"),
+        (_, true, false) => s.push_str("compute"),
+        (Some(j), true, true) => { s.push_str("(json "); json_sexp(j, &mut s); s.push(')'); }
+        (None, true, true) => s.push_str("notjson"),
     }
     // f64::from_str of every text that may be parsed as REAL
     let mut texts: BTreeSet<String> = BTreeSet::new();
@@ -531,7 +535,9 @@ pub fn case_line(td: &TableDefinition, line: &str, lo: &LineOracle) -> String {
     let any_real_convert = td.columns.iter().any(|c| matches!(c.parsing, ColumnParsing::Json(_)) && c.options.convert && c.column_type == ValueType::Float);
     if any_real_convert { if let Some(j) = &lo.json { collect_strings(j, &mut texts); } }
     s.push_str(" (f64");
+    let ship = crate::util::ship_facts(crate::util::SITE_EXTRACT_F64);
     for t in &texts {
+        if !ship { break; }
         match f64::from_str(t) { Ok(f) => s.push_str(&format!(" ({} {})", hexs(t), f.to_bits())), Err(_) => s.push_str(&format!(" ({} none)", hexs(t))) }
     }
     s.push(')');
@@ -1077,6 +1083,21 @@ pub fn json_line(rng: &mut Rng, td: &TableDefinition) -> (String, String) {
     // JSON allows white space around the document (and serde_json accepts it): blanks and tabs before / after
     if rng.chance(1, 6) { s = format!("{}{}", rng.pick(&[" ", "\t", "   ", " \t "]), s); class.push_str("-lead-ws"); }
     if rng.chance(1, 10) { let w: &str = *rng.pick(&[" ", "\t", "  "]); s.push_str(w); class.push_str("-trail-ws"); }
+    // a document the columns' paths DO address, made "not one JSON document" by what surrounds it (a lenient reader that
+    // takes the first value, strips a byte-order mark or forgives a trailing comma would extract values from it)
+    if rng.chance(1, 14) {
+        let k = rng.below(7);
+        s = match k {
+            0 => format!("{} trailing", s),
+            1 => format!("{}{}", s, s),
+            2 => format!("{}{}", '\u{feff}', s),
+            3 => format!("{},", s),
+            4 => format!("{} {}", s, rng.pick(&["1", "null", "{}", "]", "}"])),
+            5 => format!("// c{}{}", '\u{a0}', s),
+            _ => format!("{}{}", s, '\u{a0}'),
+        };
+        class = format!("json-wrapped{}", k);
+    }
     (s, class)
 }
 
@@ -1326,6 +1347,10 @@ pub fn run(property: &str, p: &Params, json: bool) -> Run {
         // JSON columns, alone and mixed with regex columns
         random_cases(&mut run, &mut rng, p.n(140, 6000), p.n(6, 10), 10);
         random_cases(&mut run, &mut rng, p.n(260, 9000), p.n(6, 10), 5);
+        // `serde_json::from_str::<Value>` as computed by the Lean model (Model/JsonDoc.lean) against the real one
+        let before = run.cases.len();
+        crate::jsontext::doc_stream(&mut run, &mut Rng::new(p.seed ^ 0xD0C), p.n(2000, 50_000));
+        run.notes.push(format!("jsondoc cases (Lean docOfLine vs serde_json::from_str): {}", run.cases.len() - before));
     } else {
         ts_sweep(&mut run, &mut rng);
         literal_sweep(&mut run, &mut rng);
